@@ -1027,7 +1027,7 @@ func main() {
 		}
 		return
 	}
-	nworlds := 40
+	nworlds := 30
 	if *tier == "thorough" {
 		nworlds = 160
 	}
